@@ -57,6 +57,17 @@ package pkix
 //@   requires n != nil && rdns != nil
 //@   loop 1 invariant same(n.OriginalRDNS, old(*rdns))
 //@   loop 2 invariant same(n.OriginalRDNS, old(*rdns))
+// [first]/[jp]/[jpv] (area pkixfields, C22 first sentence, /verif/notes/pkixfields.md): exact effect of the FIRST
+// attribute of every RDN on JurisdictionProvince - iff it has a string value and the type
+// 1.3.6.1.4.1.311.60.2.1.2 (EV guidelines: jurisdictionStateOrProvinceName), exactly one element, that
+// string, is appended to n.JurisdictionProvince; otherwise the list is the one it was when the RDN was
+// entered. `atentry` = state on entry of the inner loop; the inner loop has one back edge per branch, so
+// each branch is checked against this statement. [oids]: the oid variables are not reassigned.
+//@   loop 1 invariant [oids] ite(same(oidDomainComponent, old(oidDomainComponent)) && same(oidDNEmailAddress, old(oidDNEmailAddress)) && same(oidJurisdictionLocality, old(oidJurisdictionLocality)) && same(oidJurisdictionProvince, old(oidJurisdictionProvince)) && same(oidJurisdictionCountry, old(oidJurisdictionCountry)), true, false)
+//@   loop 2 invariant [oids] ite(same(oidDomainComponent, old(oidDomainComponent)) && same(oidDNEmailAddress, old(oidDNEmailAddress)) && same(oidJurisdictionLocality, old(oidJurisdictionLocality)) && same(oidJurisdictionProvince, old(oidJurisdictionProvince)) && same(oidJurisdictionCountry, old(oidJurisdictionCountry)), true, false)
+//@   loop 2 invariant [first] it == 0 && len(rdn) > 0 ==> same(rdn[0].Type, atentry(rdn[0].Type)) && same(rdn[0].Value, atentry(rdn[0].Value))
+//@   loop 2 invariant [jp] ite((it == 0 ==> same(n.JurisdictionProvince, atentry(n.JurisdictionProvince))) && (it == 1 ==> ite(typeis(atentry(rdn[0]).Value, string) && oidJur(atentry(rdn[0]).Type, 2), len(n.JurisdictionProvince) == atentry(len(n.JurisdictionProvince)) + 1, same(n.JurisdictionProvince, atentry(n.JurisdictionProvince)))), true, false)
+//@   loop 2 invariant [jpv] it == 1 && typeis(atentry(rdn[0]).Value, string) && oidJur(atentry(rdn[0]).Type, 2) ==> n.JurisdictionProvince[atentry(len(n.JurisdictionProvince))] == unboxed(atentry(rdn[0]).Value, string)
 //@   ensures [orig] same(n.OriginalRDNS, old(*rdns))
 //@   modifies all
 //@   terminates
